@@ -15,13 +15,13 @@ import (
 // requests the model does not follow, so the scenario ends (desync) after the offence.
 
 type Offence struct {
-	Kind   string   `json:"kind"`
-	Raws   [][]byte `json:"raws,omitempty"`   // message payloads
-	Frame  string   `json:"frame,omitempty"`  // bin | text | unmasked | frag | badlen | huge | ping | pong | close | garbage
-	N      int      `json:"n,omitempty"`      // burst size / traffic volume
-	Then   string   `json:"then,omitempty"`   // fin | rst | resume | none
-	Witness int     `json:"witness,omitempty"` // connection that generates traffic
-	Cut    int      `json:"cut,omitempty"`    // bytes of the last frame that are sent before the connection dies
+	Kind    string   `json:"kind"`
+	Raws    [][]byte `json:"raws,omitempty"`    // message payloads
+	Frame   string   `json:"frame,omitempty"`   // bin | text | unmasked | frag | badlen | huge | ping | pong | close | garbage
+	N       int      `json:"n,omitempty"`       // burst size / traffic volume
+	Then    string   `json:"then,omitempty"`    // fin | rst | resume | none
+	Witness int      `json:"witness,omitempty"` // connection that generates traffic
+	Cut     int      `json:"cut,omitempty"`     // bytes of the last frame that are sent before the connection dies
 }
 
 func (r *runner) sendFramed(c *Client, payload []byte, frame string) {
